@@ -136,6 +136,14 @@ def SpecLocal (root c : Pt) (w h : Int) (e b : Pt) : Prop :=
 instance (root c : Pt) (w h : Int) (e b : Pt) : Decidable (SpecLocal root c w h e b) := by
   unfold SpecLocal; infer_instance
 
+/-- the part of `SpecLocal` that concerns the reported Ethernet chip alone (the board chip is
+searched in the hand-written board, not taken from `spinn5_chip_coord`) -/
+def SpecLocalE (root c : Pt) (w h : Int) (e : Pt) : Prop :=
+  ∃ b ∈ boardChips, SpecLocal root c w h e b
+
+instance (root c : Pt) (w h : Int) (e : Pt) : Decidable (SpecLocalE root c w h e) := by
+  unfold SpecLocalE; infer_instance
+
 /-- all points of the `width x height` rectangle -/
 def grid (width height : Int) : List Pt :=
   (List.range width.toNat).flatMap fun (x : Nat) => (List.range height.toNat).map fun (y : Nat) => ((x : Int), (y : Int))
@@ -219,6 +227,10 @@ def handle (op : String) (j : Json) : R Json := do
     let b ← asPt (← field j "b")
     pure (Json.bool (decide (SpecLocal (← int j "rx", ← int j "ry") (← int j "x", ← int j "y")
       (← int j "w") (← int j "h") e b)))
+  | "spec_local_e" =>
+    let e ← asPt (← field j "e")
+    pure (Json.bool (decide (SpecLocalE (← int j "rx", ← int j "ry") (← int j "x", ← int j "y")
+      (← int j "w") (← int j "h") e)))
   | "spec_eth_coords" =>
     let l ← (← arr j "out").mapM asPt
     pure (Json.bool (decide (SpecEthCoords (← int j "rx", ← int j "ry") (← int j "width") (← int j "height") l)))
